@@ -126,6 +126,18 @@ def queries(tier, seed):
                             unwindset=[(r'St6vector|fill_n|uninitialized|read_palette', 310)], rt_unwind=L + 4, mem_unwind=400, cdefs=dict(VP_FILE_MAX=L + 8),
                             tier='thorough', timeout=300,   # attempts: no verdict within 300 s even with concrete run-length structure
                             note='run-length structure concrete, colour indices symbolic'))
+    # the same streams with concrete colour indices: the whole file is concrete, the symbolic executor just runs the decoder and the model
+    # checker's object bounds are the oracle (this is a concrete test through the memory model, listed as such in the evidence)
+    for comp, bpp in ((1, 8), (2, 4)):
+        for sn, st in bmp8_streams.items():
+            base = 54; pal = 16; ds = base + pal
+            conc = [(b if b != S else (1 + (i * 3) % 3)) for i, b in enumerate(st)]
+            L = ds + len(conc)
+            hdrfill = list(range(2, 10)) + list(range(26, 28)) + list(range(34, 46)) + list(range(50, 70))   # remaining header / palette bytes
+            par = [1, 40, bpp, comp, 3, 2, 4, ds, -1, ds, 0, 0, 0, 0, 0] + [len(conc)] + conc
+            qs.append(Q('bmp/convert_image/file/runlen%d_%s_concrete/L%d' % (bpp, sn, L), 'C11/read.cpp', 'h_read', defs=dict(FORMAT=1, ENTRY=E['convert_image'], DEV=1, CONCRETE_REST=1), params=[L] + par, rt=['file'], unwind=20,
+                        unwindset=[(r'St6vector|fill_n|uninitialized|read_palette', 310), (r'^F_h_read$', 130)], rt_unwind=L + 4, mem_unwind=400, cdefs=dict(VP_FILE_MAX=L + 8), tier='quick', timeout=300,
+                        note='fully concrete file: decoder executed through the memory model (object bounds oracle), no symbolic data'))
     tga_streams = {   # 24-bit, 3x2 = 6 pixels; packet header: 0x80|(n-1) run of one pixel, n-1 raw pixels
         'valid':      [0x82, S, S, S, 0x02, S, S, S, S, S, S, S, S, S],
         'run_over':   [0x82, S, S, S, 0x85, S, S, S],
